@@ -267,7 +267,9 @@ class DocutilsRenderer(RendererProtocol):
                 f"Duplicate reference definition: {dup_ref['label']}",
                 MystWarnings.MD_DEF_DUPE,
                 line=dup_ref["map"][0] + 1,
-                append_to=self.document,
+                # (not the document: a node after the section of a lone heading
+                # would stop docutils promoting it to the document title)
+                append_to=self.current_node,
             )
 
         # Add the wordcount, generated by the ``mdit_py_plugins.wordcount_plugin``.
